@@ -15,8 +15,8 @@ import (
 // Driver/ConsensusStore.lean). The election stream (C05) hands every k-th elected schedule and generated storage.Point
 // to csElection / csPoint, the rewards-pure stream (C11) hands the period points of a fold case to csFoldPoints.
 //
-//   cs-ed-enc <value>            | <hex>     the REAL ElectionData.Marshal of the value; the model's marshalED must give
-//                                            the same bytes (the encoding of slices is canonical)
+//   cs-ed-enc <value> <hex>      | ok        <hex> = the REAL ElectionData.Marshal of the value; the model's marshalED must
+//                                            give the same bytes (the encoding of slices is canonical)
 //   cs-ed-dec <hex>              | <text>    the REAL Unmarshal of those bytes, printed canonically; the model's
 //                                            unmarshalED of the same bytes must print the same
 //   cs-pt-enc <value> <hex>      | ok        the REAL Point.Marshal of the value (map iteration order: NOT canonical):
@@ -84,7 +84,11 @@ func csEDText(ed *storage.ElectionData, err error) string {
 	for i, d := range ed.Delegations {
 		ds[i] = fmt.Sprintf("%s/%s/%s", hx([]byte(d.Name)), hx(d.Producing[:]), d.Weight)
 	}
-	return fmt.Sprintf("p=%d[%s] d=%d[%s]", len(ps), strings.Join(ps, ","), len(ds), strings.Join(ds, ","))
+	distinct := map[types.Address]bool{}
+	for _, p := range ed.Producers {
+		distinct[p] = true
+	}
+	return fmt.Sprintf("p=%d/%d d=%d [%s] [%s]", len(ps), len(distinct), len(ds), strings.Join(ps, ","), strings.Join(ds, ","))
 }
 
 func csSortedNames(p *storage.Point) []string {
@@ -120,7 +124,7 @@ func csPointText(p *storage.Point, err error) string {
 		d := p.Pillars[k]
 		ss[i] = fmt.Sprintf("%s/%d/%d/%s", hx([]byte(k)), d.ExpectedNum, d.FactualNum, d.Weight)
 	}
-	return fmt.Sprintf("prev=%s end=%s total=%s n=%d[%s]", hx(p.PrevHash[:]), hx(p.EndHash[:]), p.TotalWeight, len(names), strings.Join(ss, ","))
+	return fmt.Sprintf("n=%d total=%s prev=%s end=%s [%s]", len(names), p.TotalWeight, hx(p.PrevHash[:]), hx(p.EndHash[:]), strings.Join(ss, ","))
 }
 
 func csPointTraceable(p *storage.Point) bool {
@@ -149,7 +153,7 @@ func csElection(c *Ctx, producers []types.Address, delegs []*types.PillarDelegat
 	if p := safely(func() { buf, err = ed.Marshal() }); p != "" || err != nil {
 		return // reported by the persistence monitor
 	}
-	c.Emit("cs-ed-enc %s | %s", csEDTokens(ed), hx(buf))
+	c.Emit("cs-ed-enc %s %s | ok", csEDTokens(ed), hx(buf))
 	back := &storage.ElectionData{}
 	var uerr error
 	if p := safely(func() { uerr = back.Unmarshal(buf) }); p != "" {
@@ -177,7 +181,7 @@ func csElection(c *Ctx, producers []types.Address, delegs []*types.PillarDelegat
 	}
 	c.Emit("cs-db store-ed A %s %s", hx(h[:]), csEDTokens(ed))
 	if raw, err := t.kv.Get(storage.CreateElectionResultKey(h)); err == nil {
-		c.Emit("cs-db raw-ed %s | %s", hx(h[:]), hx(raw))
+		c.Emit("cs-db raw-ed %s %s | ok", hx(h[:]), hx(raw))
 	}
 	g1, e1 := t.a.GetElectionResultByHash(h)
 	c.Emit("cs-db get-ed A %s | %s", hx(h[:]), csEDText(g1, e1))
@@ -272,12 +276,14 @@ var csFoldCalls = map[*Ctx]int{}
 
 // csFoldPoints: the period points of a fold case of the rewards-pure stream, AFTER the real aggregation code
 // (Point.LeftAppend, the statements of generatePointFromLower) has worked with the objects the LRU of `sdb` handed out:
-// what the cache holds now must still be the decode of the stored bytes (the aliasing assumption of the model).
+// what the cache holds now must still be the decode of the stored bytes (the aliasing assumption of the model), and so
+// must be what a restarted storage.DB reads from them.
 func csFoldPoints(c *Ctx, kv db.DB, sdb *storage.DB, stored []int, built func(i int) *storage.Point) {
 	csFoldCalls[c]++
 	if (csFoldCalls[c]-1)%csEvery(c, 20000) != 0 {
 		return
 	}
+	cold := storage.NewConsensusDB(kv, 4, 64) // a restarted node: decodes the stored bytes with the real Unmarshal
 	for _, i := range stored {
 		raw, err := kv.Get(storage.CreatePointKey(storage.PrefixPeriodPoint, uint64(i)))
 		if err != nil {
@@ -288,5 +294,13 @@ func csFoldPoints(c *Ctx, kv db.DB, sdb *storage.DB, stored []int, built func(i 
 		cached, cerr := sdb.GetPointByHeight(storage.PrefixPeriodPoint, uint64(i))
 		c.Emit("cs-pt-dec %s | %s", hx(raw), csPointText(cached, cerr))
 		c.Hit("cs-cached-period-point-after-folds")
+		read, rerr := cold.GetPointByHeight(storage.PrefixPeriodPoint, uint64(i))
+		c.Emit("cs-pt-dec %s | %s", hx(raw), csPointText(read, rerr))
+		for _, d := range want.Pillars {
+			if d.Weight.Sign() == 0 {
+				c.Hit("cs-period-point-with-weight-0-pillar-read-by-restarted-db")
+				break
+			}
+		}
 	}
 }
